@@ -455,8 +455,12 @@ def meta_shard(arg):
 # replay / main
 
 def replay(path):
+    from harness import lianrun
     rec = common.load_replay(path)
-    out = check_case(rec["case"], export=True)
+    try:
+        out = check_case(rec["case"], export=True)
+    finally:
+        lianrun.cleanup_scratch()       # check.py leaves through os._exit: atexit handlers do not run
     for e in out.errors:
         print("HARNESS-ERROR: property=%s %s" % (ID, e))
     if out.errors:
@@ -478,6 +482,14 @@ def replay(path):
 
 
 def main(tier, seed, t0):
+    from harness import lianrun
+    try:
+        return _main(tier, seed, t0)
+    finally:
+        lianrun.cleanup_scratch()       # check.py leaves through os._exit: atexit handlers do not run
+
+
+def _main(tier, seed, t0):
     col = Collector()
     # 1. calibration + committed regression inputs
     for path in common.replay_files(ID):
